@@ -3,7 +3,7 @@
    removed, escape-aware label walk) and dba5ede (the refresh parses downloads only). *)
 From Coq Require Import Permutation.
 From Sdns Require Import Common.Base Gen.C18 C18.Model C18.Spec
-  C18.Proofs_match C18.Proofs_disk C18.Proofs_reload C18.Proofs_final C18.Proofs_equiv C18.Proofs_refresh C18.Proofs_walk C18.Proofs_examples C18.Proofs_fault C18.Proofs_allsteps C18.Proofs_spelling C18.Ack C18.Proofs_ack.
+  C18.Proofs_match C18.Proofs_disk C18.Proofs_reload C18.Proofs_final C18.Proofs_equiv C18.Proofs_refresh C18.Proofs_walk C18.Proofs_examples C18.Proofs_fault C18.Proofs_allsteps C18.Proofs_spelling C18.Ack C18.Proofs_ack C18.Proofs_listed C18.Proofs_whole.
 Open Scope N_scope.
 
 (* Matching is exact on whole labels, case-insensitive, whitelist first: for every
@@ -321,6 +321,89 @@ Theorem acknowledged_is_matched : forall b0 ops, no_wild_plain b0 ->
   (forallb all_or_nothing h = true -> lo = hi).
 Proof. exact acknowledged_is_matched_lemma. Qed.
 Print Assumptions acknowledged_is_matched.
+
+(* ---- session 5 *)
+
+(* The first sentence of the property for WHOLE API HISTORIES, on the query side.  Start from
+   any list in the wire decoder's spelling (every list built from such keys), run ANY sequence
+   of Set / Remove / SetBatch / RemoveBatch calls whose keys are — up to case and the final
+   dot — the decoder's spelling of a wire name ("Example.COM", "*.u\@v.net"; decoder_key), and
+   ask Exists for ANY wire name q (labels of arbitrary bytes, any case, written as
+   dns.UnpackDomainName writes them): every name the lower acknowledged list blocks is blocked,
+   every blocked name is blocked by the upper acknowledged list, and when no batch was
+   accepted in part (the two lists are one)
+
+       Exists(q) = true  <->  q or a proper parent below the root is an acknowledged plain
+                              entry, or a strict parent an acknowledged wildcard entry, and
+                              neither q nor a parent is whitelisted     (Spec.blocked_spec)
+
+   — "listed" read off the calls and their return values alone (Ack.ack_lists), the memory of
+   the list never looked at.  Joins acknowledged_is_matched with exists_spec through
+   name_of_present (Spec.parse_pres undoes the decoder's escaping) and the invariant
+   apply_op_keeps_dsp.  For keys spelled by hand it fails: entry_spelling_refuted.
+   Tie: Run.CaseListed — real calls, then real ServeDNS queries, judged against the
+   acknowledged list (spec_case) and against the model's run (check_case). *)
+Theorem listed_is_blocked : forall b0 ops q,
+  decoder_spelled b0 -> no_wild_plain b0 -> Forall decoder_key (hist_keys ops) -> wireP q ->
+  let h := fst (run_hist ops b0) in
+  let b1 := snd (run_hist ops b0) in
+  let lo := fst (ack_lists h b0) in
+  let hi := snd (ack_lists h b0) in
+  (blocks lo (fold_name q) -> bl_exists b1 (present q) = true) /\
+  (bl_exists b1 (present q) = true -> blocks hi (fold_name q)) /\
+  (forallb all_or_nothing h = true -> (bl_exists b1 (present q) = true <-> blocks lo (fold_name q))).
+Proof. exact listed_is_blocked_lemma. Qed.
+Print Assumptions listed_is_blocked.
+
+(* ... and its second half: after such a history the query for q gets the null route (A / AAAA)
+   or the empty authoritative answer and never reaches the next handler exactly when the
+   acknowledged list blocks q; every other name goes on untouched *)
+Theorem listed_is_served : forall b0 ops q nr nr6 qtype,
+  decoder_spelled b0 -> no_wild_plain b0 -> Forall decoder_key (hist_keys ops) -> wireP q ->
+  let h := fst (run_hist ops b0) in
+  let b1 := snd (run_hist ops b0) in
+  let lo := fst (ack_lists h b0) in
+  forallb all_or_nothing h = true ->
+  (blocks lo (fold_name q) ->
+     exists an ns, serve b1 nr nr6 (present q) qtype = OReply 0 true true an ns /\
+       (qtype = type_a -> an = [RR type_a ttl_a (present q) nr] /\ ns = []) /\
+       (qtype = type_aaaa -> an = [RR type_aaaa ttl_aaaa (present q) nr6] /\ ns = []) /\
+       (qtype <> type_a -> qtype <> type_aaaa -> an = [] /\ exists soa, ns = [soa])) /\
+  (~ blocks lo (fold_name q) -> serve b1 nr nr6 (present q) qtype = ONext).
+Proof. exact listed_is_served_lemma. Qed.
+Print Assumptions listed_is_served.
+
+(* the decoder's spelling of a wire name is such a key, whatever its case; and the name it
+   denotes is the name it was written from *)
+Theorem decoder_spelling_round_trip : forall n, wireP n ->
+  decoder_key (present n) /\ name_of (present n) = fold_name n.
+Proof. exact decoder_spelling_round_trip_lemma. Qed.
+Print Assumptions decoder_spelling_round_trip.
+
+(* BOTH sentences of the property in one statement.  A process starts on a directory (b0 =
+   loadInitial on `local`, whitelist wl); API calls run CONCURRENTLY: their mutations take
+   effect one at a time under mu in some order — [ops] is that order — and their saves reach
+   persist() in ANY order (tsteps = csteps with the calls written down); every call has
+   returned and every save is done; the process is restarted on the directory.  Then the NEW
+   process blocks a wire name q exactly when the list the calls acknowledged lists q or a
+   parent and the whitelist does not (between the lower and the upper list when a batch was
+   accepted in part).  Joins end_to_end (disk_converges + reload_equiv + load_initial_invariant)
+   with listed_is_blocked.  Premises: the list the process started with and the keys are in the
+   wire decoder's spelling, keys do not end in a backslash (sane_keys_needed). *)
+Theorem listed_end_to_end : forall wl l0 ops s q,
+  let start := fun l => load_initial wl [] (match l with Some f => [f] | None => [] end) in
+  let b0 := start l0 in
+  tsteps (init b0 l0) ops s -> s_pending s = [] -> 0 < s_version s ->
+  decoder_spelled b0 -> Forall decoder_key (hist_keys ops) -> wireP q ->
+  let h := fst (run_hist ops b0) in
+  let lo := fst (ack_lists h b0) in
+  let hi := snd (ack_lists h b0) in
+  (blocks lo (fold_name q) -> bl_exists (start (s_local s)) (present q) = true) /\
+  (bl_exists (start (s_local s)) (present q) = true -> blocks hi (fold_name q)) /\
+  (forallb all_or_nothing h = true ->
+     (bl_exists (start (s_local s)) (present q) = true <-> blocks lo (fold_name q))).
+Proof. exact listed_end_to_end_lemma. Qed.
+Print Assumptions listed_end_to_end.
 
 (* ABOUT THE PROPOSED CODE (props/C18/fix.patch, on offer for the finding
    blocklist-entry-spelling; NOT in /repo): with canonicalKey — as a function on names
